@@ -754,7 +754,7 @@ func (e *Engine) retryOne(lines []Line, ob *Obligation, slowMs int, scratch stri
 					}
 					return "unknown"
 				}
-				budgets := []int{2500, 2500, 2500, slowMs / 4}
+				budgets := []int{2500, 2500, 2500, 2500, 2500, 2500, slowMs / 2}
 				for attempt, ms := range budgets {
 					qq := q
 					if attempt > 0 {
